@@ -232,6 +232,9 @@ impl TheDrawFont {
                     return Err(TdfError::GlyphOutsideFontDataSize(char_offset).into());
                 }
                 char_offset += o;
+                if char_offset + 2 > bytes.len() {
+                    return Err(TdfError::DataOverflow(char_offset).into());
+                }
 
                 let width = bytes[char_offset] as usize;
                 char_offset += 1;
@@ -253,6 +256,9 @@ impl TheDrawFont {
                     if matches!(font_type, FontType::Color) {
                         if ch == 13 {
                             continue;
+                        }
+                        if char_offset >= bytes.len() {
+                            return Err(TdfError::DataOverflow(char_offset).into());
                         }
                         ch = bytes[char_offset];
                         char_offset += 1;
